@@ -588,6 +588,16 @@ def gen_window(rng):
             entries.append(["addsep", item, rng.choice([1, 1, 2, 0])])
         else:
             entries.append(["add", item])
+    lists = [e[1] for e in entries if e[0] != "sep" and e[1][0] == "list" and e[1][3]]
+    if lists and rng.random() < 0.35:
+        # one text is a direct item of the window AND an item of a list container of the same window: build_window makes it
+        # ONE widget object (a notice shown on top and again inside the table).  Each use renders it right before drawing it.
+        txt = ["text", rng.choice(["a fairly long notice that wraps differently in a narrow column than in the whole window",
+                                   "n/a", rc.rand_text(rng, 6) or "shared"])]
+        l = rng.choice(lists)
+        l[3][rng.randrange(len(l[3]))] = list(txt)
+        entries.insert(rng.randrange(len(entries) + 1), [rng.choice(["add", "add", "addsep"]), list(txt), 1][:3])
+        entries = [e if e[0] != "add" else e[:2] for e in entries]
     return dict(title=title, entries=entries)
 
 
@@ -606,13 +616,21 @@ def window_items(win):
 def build_window(win, container=None):
     from simpleline.render.containers import WindowContainer
     c = container if container is not None else WindowContainer(win["title"])
+    local = {}          # equal plain texts among the window's direct items and its list containers' items: one shared object
+
+    def mk(x):
+        if x[0] == "text" and len(x[1]) % 3 != 2:
+            if x[1] not in local:
+                local[x[1]] = rc.build(x)
+            return local[x[1]]
+        return rc.build(x, local if x[0] == "list" else None)
     for e in win["entries"]:
         if e[0] == "sep":
             c.add_separator(e[1])
         elif e[0] == "add":
-            c.add(rc.build(e[1]))
+            c.add(mk(e[1]))
         else:
-            c.add_with_separator(rc.build(e[1]), blank_lines=e[2])
+            c.add_with_separator(mk(e[1]), blank_lines=e[2])
     return c
 
 
